@@ -53,6 +53,14 @@ def must_match(ctx, rules):
     if "R-CAPFWD" in rules:
         f = prog.fn("fx_capacity")
         got["R-CAPFWD"] = f is not None and sum(1 for bb, t in f.calls() if "func" in t and t["func"]["name"] == "capacity") == 2
+    if "R-SELFMADE" in rules:
+        from .rules_iter import r_selfmade
+        res = r_selfmade(ctx, v, fixture=True)
+        good = res.get("GoodCursor<'a>") or res.get("GoodCursor") or next((r for k, r in res.items() if "GoodCursor" in k), None)
+        ba = next((r for k, r in res.items() if "BadCursorA" in k), None)
+        bb = next((r for k, r in res.items() if "BadCursorB" in k), None)
+        got["R-SELFMADE"] = bool(good is not None and not good[0] and ba and any("without the guard" in x for x in ba[0])
+                                 and bb and any("yields nothing" in x for x in bb[0]))
     blind = [r for r, ok in got.items() if not ok]
     if blind:
         raise CheckError("rule(s) %s do not match their instance in the positive fixture: the rule is blind" % blind)
